@@ -237,9 +237,21 @@ func TestVerif_C04_FullRT(t *testing.T) {
 					if err != nil {
 						getErr = err
 					} else {
-						for v := range ch {
-							vals = append(vals, emitted{sim.Now(), v})
-							time.Sleep(time.Duration(sc.SlowReadMs) * time.Millisecond)
+						// (a channel that is never closed does not deadlock the bubble - the client's tickers keep virtual time going)
+						giveUp := time.After(3 * time.Hour)
+					read:
+						for {
+							select {
+							case v, ok := <-ch:
+								if !ok {
+									break read
+								}
+								vals = append(vals, emitted{sim.Now(), v})
+								time.Sleep(time.Duration(sc.SlowReadMs) * time.Millisecond)
+							case <-giveUp:
+								res.Fail("channel-closed", "C04/fullrt/channel-not-closed", "the value channel was not closed within 3 h of virtual time")
+								return
+							}
 						}
 					}
 				}
